@@ -916,6 +916,9 @@ def run_case(ctx, i, rng):
                     type(res).__name__})
     if exc is None:
         ctx.outcome('returned')
+        if op == 'InvokeMethod' and script.get('target') and \
+                isinstance(res, tuple) and len(res) == 2:
+            check_invoke_types(ctx, res, script['target'][0], detail)
         if not result_ok(op, res):
             ctx.violation('result-type.%s' % op,
                           '%s returned %s, not a value of its documented '
@@ -934,6 +937,79 @@ def run_case(ctx, i, rng):
     ctx.outcome('forbidden:' + type(exc).__name__)
     ctx.unexpected(exc, '%s with a %s response raised a non-pywbem exception'
                    % (op, rclass), detail)
+
+
+PY_TYPES = {
+    'boolean': (bool,), 'string': (str,),
+    'embedded': (CIMInstance, CIMClass),
+    'char16': (str,), 'datetime': (pywbem.CIMDateTime,),
+    'reference': (CIMInstanceName, CIMClassName),
+    'uint8': (pywbem.Uint8,), 'uint16': (pywbem.Uint16,),
+    'uint32': (pywbem.Uint32,), 'uint64': (pywbem.Uint64,),
+    'sint8': (pywbem.Sint8,), 'sint16': (pywbem.Sint16,),
+    'sint32': (pywbem.Sint32,), 'sint64': (pywbem.Sint64,),
+    'real32': (pywbem.Real32,), 'real64': (pywbem.Real64,)}
+
+
+def check_invoke_types(ctx, res, body, detail):
+    """InvokeMethod returned: the return value and every output parameter
+    whose PARAMTYPE the response names must be an object of the python type
+    documented for that CIM type (or NULL, or a list of such)."""
+    et = etree()
+    try:
+        root = et.fromstring(body, et.XMLParser(huge_tree=True,
+                                                resolve_entities=False))
+    except (et.XMLSyntaxError, ValueError):
+        return
+    mr = root.find('.//METHODRESPONSE')
+    if mr is None:
+        return
+    named = {}
+
+    def declared(e):
+        # only responses that are consistent in themselves are judged: the
+        # value element is of the kind the declared type calls for (what a
+        # liberal client makes of a contradictory one is not documented)
+        t = e.get('PARAMTYPE')
+        kids = [c.tag for c in e]
+        if len(kids) > 1:
+            return '?'
+        want = ('VALUE.REFERENCE', 'VALUE.REFARRAY') if t == 'reference' \
+            else ('VALUE', 'VALUE.ARRAY')
+        if kids and kids[0] not in want:
+            return '?'
+        if e.get('EmbeddedObject') or e.get('EMBEDDEDOBJECT'):
+            return 'embedded' if t == 'string' else '?'
+        return t
+
+    for e in mr:
+        if e.tag == 'RETURNVALUE':
+            named[None] = declared(e)
+        elif e.tag == 'PARAMVALUE' and e.get('NAME') is not None:
+            k = e.get('NAME').lower()
+            named[k] = '?' if k in named else declared(e)
+    ctx.count('invoke-result-typed')
+    for k, t in named.items():
+        if t not in PY_TYPES:
+            continue
+        if k is None:
+            v = res[0]
+        else:
+            hits = [x for n, x in res[1].items() if n.lower() == k]
+            if len(hits) != 1:
+                continue
+            v = hits[0]
+        items = v if isinstance(v, list) else [v]
+        for x in items:
+            if x is not None and not isinstance(x, PY_TYPES[t]):
+                ctx.violation(
+                    'result-type.InvokeMethod.%s-as-%s' % (t, type(x).__name__),
+                    'InvokeMethod returned %s %r as %s although the response '
+                    'declares it as %s' % (
+                        'the return value' if k is None else
+                        'output parameter', k, short(repr(x), 200), t),
+                    detail)
+                return
 
 
 def check_parse_error_data(ctx, exc, adapter, script, detail):
